@@ -170,6 +170,18 @@ def check_big(case, ctx):
         ctx.require(lb == 0, "isomorphic_lower_bound_positive", lambda: "isomorphic graphs with %d vertices: lb=%r" % (g["n"], lb))
 
 
+def edge_size_cases():
+    """deterministic graphs whose diameter sits at the integer-width boundaries (the implementation stores distances in the
+    smallest sufficient signed integer type): diameters 125..129 (and 254..257 in the thorough tier)"""
+    ns = [126, 127, 128, 129, 130] + ([255, 256, 257, 258] if _TIER == "thorough" else [])
+    fams = ["path", "caterpillar"] + (["cycle", "random_tree"] if _TIER == "thorough" else [])
+    for n in ns:
+        for fam in fams:
+            g = {"family": fam, "n": (n if fam != "cycle" else 2 * n - 2), "seed": 1}
+            for partner in ({"family": "path", "n": 100, "seed": 2}, dict(g), {"family": "star", "n": 5, "seed": 3}):
+                yield {"g": g, "h": partner, "seed": n, "order": None, "order_form": "array", "same": partner == g}
+
+
 _ENUM = None
 
 
@@ -220,6 +232,10 @@ CLAUSES = [
            rule="60..140 vertices in the quick tier, 60..260 in the thorough tier (sizes around 127/128 and 255/256 favoured: the implementation picks the smallest integer dtype that holds the "
                 "distances): paths, cycles, stars, caterpillars, random trees (+ chords), expanded from a generated seed; no exception, 0 <= lb <= ub, "
                 "half-integrality, ub >= trivial bound, lb <= half the distortion of a greedy map, relabelled copies get lb == 0; non-trivial = >= 128 vertices"),
+    Clause("edge_sizes", cases=edge_size_cases, check=check_big,
+           rule="DETERMINISTIC slice: paths and caterpillars (thorough: also cycles and random trees) with 126..130 (thorough: also 255..258) "
+                "vertices, i.e. diameters at the int8 / int16 boundaries, against a 100-path, a relabelled copy of themselves and a 5-star; "
+                "same validity predicates as big_graphs"),
     Clause("small_slice", cases=slice_cases, check=check_slice,
            rule="EXHAUSTIVE: all 44 x 44 ordered pairs of connected labelled graphs on <= 4 vertices x 3 RNG seeds; oracle cross-checked against "
                 "itertools.product brute force on every pair"),
